@@ -308,6 +308,11 @@ func (fr *Frame) modCall(call *ast.CallExpr, ms *modSet, info *types.Info, visit
 		return
 	}
 	callee = callee.Origin()
+	if isStreamModel(callee) {
+		ms.alloc = true
+		ms.touch(streamHeap, streamSort)
+		return
+	}
 	if c := fr.eng.contractFor(callee); c != nil {
 		if c.Pure {
 			return
@@ -560,6 +565,11 @@ func (fr *Frame) execRange(s *State, x *ast.RangeStmt, label string) *State {
 		fr.unsupported(x.Pos(), "range over untyped expression")
 		return nil
 	}
+	if cl, ok := ast.Unparen(x.X).(*ast.CompositeLit); ok && spec == nil {
+		if r, done := fr.execRangeLiteral(s, x, cl, label); done {
+			return r
+		}
+	}
 	coll := fr.eval(s, x.X)
 	if p, ok := coll.T.Underlying().(*types.Pointer); ok {
 		if _, ok := p.Elem().Underlying().(*types.Array); ok {
@@ -762,4 +772,73 @@ func (fr *Frame) execRangeMap(s *State, x *ast.RangeStmt, label string, coll *Va
 	outs := append([]*State{}, lc.breaks...)
 	outs = append(outs, sx)
 	return mergeAll(outs)
+}
+
+// execRangeLiteral unrolls `for k, v := range []T{e1, ..., en}` exactly (the literal has a fixed length, so
+// no invariant is needed): the elements are evaluated once, in order, then the body runs n times.
+func (fr *Frame) execRangeLiteral(s *State, x *ast.RangeStmt, cl *ast.CompositeLit, label string) (*State, bool) {
+	t := fr.typeOf(cl)
+	if t == nil {
+		return nil, false
+	}
+	var et types.Type
+	switch u := t.Underlying().(type) {
+	case *types.Slice:
+		et = u.Elem()
+	case *types.Array:
+		et = u.Elem()
+	default:
+		return nil, false
+	}
+	if isByte(et) || len(cl.Elts) > 64 {
+		return nil, false
+	}
+	for _, el := range cl.Elts {
+		if _, keyed := el.(*ast.KeyValueExpr); keyed {
+			return nil, false
+		}
+	}
+	var elems []*Val
+	for _, el := range cl.Elts {
+		elems = append(elems, fr.convertTo(s, fr.evalElt(s, el, et), et))
+	}
+	var keyObj, valObj *types.Var
+	if id, ok := x.Key.(*ast.Ident); ok && id.Name != "_" {
+		keyObj, _ = fr.info.ObjectOf(id).(*types.Var)
+	}
+	if id, ok := x.Value.(*ast.Ident); ok && id.Name != "_" {
+		valObj, _ = fr.info.ObjectOf(id).(*types.Var)
+	}
+	define := x.Tok == token.DEFINE
+	lc := fr.pushLoop(label, false)
+	defer fr.popLoop()
+	cur := s
+	for i, ev := range elems {
+		if cur == nil {
+			break
+		}
+		if keyObj != nil {
+			kv := &Val{T: keyObj.Type(), S: fmt.Sprintf("%d", i)}
+			if define {
+				fr.declVar(cur, keyObj, kv)
+			} else {
+				fr.writeVar(cur, keyObj, kv)
+			}
+		}
+		if valObj != nil {
+			if define {
+				fr.declVar(cur, valObj, ev)
+			} else {
+				fr.writeVar(cur, valObj, ev)
+			}
+		}
+		lc.continues = nil
+		end := fr.execBlock(cur, x.Body.List)
+		cur = mergeAll(append([]*State{end}, lc.continues...))
+	}
+	outs := append([]*State{}, lc.breaks...)
+	if cur != nil {
+		outs = append(outs, cur)
+	}
+	return mergeAll(outs), true
 }
